@@ -125,7 +125,7 @@ def correspondence(rep, rng, tier):
                 rep.add_failure('host:' + tname, 'code %d: on this host %r, with Darwin tables %r' % (code, a, b),
                                 {'section': 'host-vs-darwin', 'case': c, 'table': tname, 'code': code})
     if rep.broken or tier == 'thorough':       # the theorems rule a new dependence out; search only when they no longer check
-        targeted_search(rep, diffs, tier)
+        targeted_search(rep, diffs, tier, ht)
     # every decoder on random windows under both hosts: differences only where a known reader meets a differing code
     known_errno = set()
     from pykdebugparser.trace_handlers.bsd import handlers as bsd_handlers
@@ -156,35 +156,68 @@ def correspondence(rep, rng, tier):
                                 {'section': 'table-swap', 'case': c, 'table': reason})
 
 
-def targeted_search(rep, diffs, tier):
-    """Put every code at which a host table differs from Darwin's into every START / END position of every decoder
-    that is not a known reader of that table: a difference there is a NEW host dependence."""
+def candidates():
+    """Decoders that may hide a new host dependence: untranslated ones (outside the hand-modelled set), and every
+    decoder whose generated IR mentions a host enum table or SOL_SOCKET."""
+    import os
+    import re
+    st = D.stats()
+    hand = {'DBG_DYLD_TIMING_LAUNCH_EXECUTABLE', 'MACH_vmfault', 'PERF_Event', 'PERF_THD_Data', 'TRACE_DATA_EXEC',
+            'TRACE_DATA_NEWTHREAD', 'TRACE_DATA_THREAD_TERMINATE', 'TRACE_DATA_THREAD_TERMINATE_PID', 'TRACE_STRING_EXEC',
+            'TRACE_STRING_GLOBAL', 'TRACE_STRING_NEWTHREAD', 'TRACE_STRING_PROC_EXIT', 'TRACE_STRING_THREADNAME',
+            'TRACE_STRING_THREADNAME_PREV', 'VFS_LOOKUP'}
+    out = {n for n in st['unsupported'] if n not in hand} | set(ENUM_READERS)
+    with open(os.path.join(core.LEAN, 'KdVerif', 'Gen', 'Decoders.lean')) as fd:
+        text = fd.read()
+    for m in re.finditer(r'\{ key := \d+, name := "([^"]+)"(.*?)\n  \{ key', text, flags=re.S):
+        if '.hostEnum' in m.group(2) or '.hostSolSocket' in m.group(2):
+            out.add(m.group(1))
+    return sorted(out)
+
+
+def targeted_search(rep, diffs, tier, ht):
+    """For every candidate decoder put every small code (0..130), 0xffff and every code at which a host table differs
+    from Darwin's into every START / END position and compare the rendering under the host tables and under Darwin's.
+    A difference at a code on which the consulted tables AGREE, or in a decoder outside the known readers, is a NEW
+    host dependence."""
     from pykdebugparser.trace_handlers.bsd import handlers as bsd_handlers
     sec = rep.section('new-dependence-search')
-    sec['rule'] = 'differing codes of every table x every START/END position x every decoder outside the known readers'
-    lim = 8 if tier == 'quick' else 200
-    codes = sorted({c for t in ('signals', 'addressFamily', 'socketKind', 'errno') for c in diffs[t][:lim]} |
-                   set(diffs['solSocket']))
-    for n in D.all_handler_names():
+    sec['rule'] = 'codes 0..130, 0xffff, all differing codes x every START/END position x candidate decoders'
+    ref = {'errno': DARWIN_ERRNO, 'signals': DARWIN_SIGNALS, 'addressFamily': DARWIN_AF, 'socketKind': DARWIN_SK}
+    codes = sorted(set(range(0, 131)) | {0xffff} | {c for t in ref for c in diffs[t]})
+    for n in candidates():
+        known_tables = ENUM_READERS.get(n, [])
         for code in codes:
             for pos in range(8):
-                c = demo_case(n, start=[3, 4, 5, 6], end=[0, 1, 2, 3])
+                c = demo_case(n, start=[2, 1, 0, 6], end=[0, 1, 2, 3])
                 if pos < 4:
                     c['start'][pos] = code
                 else:
                     c['end'][pos - 4] = code
-                if n in ENUM_READERS:
-                    continue
-                if n in bsd_handlers and pos == 4:
-                    continue                       # the error word of a BSD result part: known (K2a)
                 a = run(c)
                 with darwin_host():
                     b = run(c)
                 sec['cases'] += 1
-                if a != b:
-                    sec['distinct_nontrivial'] += 1
+                if a == b:
+                    continue
+                sec['distinct_nontrivial'] += 1
+                # explained by a known reader meeting a code its table names differently?
+                explained = None
+                if n in bsd_handlers and pos == 4 and ht['errno'].get(code) != DARWIN_ERRNO.get(code):
+                    explained = 'errno'
+                for t in known_tables:
+                    words = c['start']
+                    if t == 'solSocket' and (ht['solSocket'] in words or DARWIN_SOL in words):
+                        explained = explained or t
+                    elif t in ref and any(ht[t].get(w) != ref[t].get(w) for w in words):
+                        explained = explained or t
+                if explained:
+                    rep.add_failure('host:' + explained, 'decoder %s: %r on this host, %r with Darwin tables' % (n, a, b),
+                                    {'section': 'new-dependence-search', 'case': c, 'table': explained})
+                else:
                     rep.add_failure('host:new-dependence:' + n,
-                                    'decoder %s renders %r on this host and %r with Darwin tables' % (n, a, b),
+                                    'decoder %s renders %r on this host and %r with Darwin tables although the tables agree '
+                                    'on every word of the window' % (n, a, b),
                                     {'section': 'new-dependence-search', 'case': c})
                     break
             else:
